@@ -9,7 +9,24 @@ from . import flowsem
 
 def run(check):
     flowsem.run_property(check, 'C03')
+    # names no statement binds (module pseudo-names, other scopes' locals): reads that fail on every execution must list nothing
+    from . import c01_exec, flowgraph
+    check.cov['evaluations'] = check.cov.get('evaluations', 0) + c01_exec.run_undefined(check, flowgraph.load_supp())
 
 
 def replay(path):
-    return flowsem.replay_file('C03', path)
+    import json
+    data = json.load(open(path))
+    ex = [i for i in data.get('failing_inputs', []) if isinstance(i.get('replay'), dict) and i['replay'].get('kind') == 'c03_exec']
+    bad = 0
+    if ex:
+        from . import c01_exec, flowgraph
+        S = flowgraph.load_supp()
+        for i in ex:
+            r = i['replay']
+            diags = S['linter'].lint(S['project'].Project(['/nonexistent-c03-exec']), r['source'], '/nonexistent-c03-exec/m.py')
+            still = not any(d[0] == 'E02' and (d[2], d[3]) == tuple(r['read'][1:]) for d in diags)
+            print('always-failing read %r: %s' % (r['read'], 'STILL not reported undefined' if still else 'reported now'))
+            bad += still
+    rest = flowsem.replay_file('C03', path) if len(ex) < len(data.get('failing_inputs', [])) or not ex else 0
+    return 1 if bad or rest else 0
